@@ -465,6 +465,15 @@ func (wf *Workflow[I, O]) AddEnd(fromNodeKey string, inputs ...*FieldMapping) *W
 	return wf
 }
 
+// stick records an error met while the deferred declarations were being applied as the workflow's build error: what
+// was applied before it stays applied, so a later Compile has to report this error again, not trip over the leftovers.
+func (wf *Workflow[I, O]) stick(err error) error {
+	if wf.g.buildError == nil {
+		wf.g.buildError = err
+	}
+	return wf.g.buildError
+}
+
 func (wf *Workflow[I, O]) compile(ctx context.Context, options *graphCompileOptions) (*composableRunnable, error) {
 	if wf.g.buildError != nil {
 		return nil, wf.g.buildError
@@ -517,7 +526,7 @@ func (wf *Workflow[I, O]) compile(ctx context.Context, options *graphCompileOpti
 	for _, n := range nodes {
 		for _, addInput := range n.addInputs {
 			if err := addInput(); err != nil {
-				return nil, err
+				return nil, wf.stick(err)
 			}
 		}
 		n.addInputs = nil
@@ -533,7 +542,7 @@ func (wf *Workflow[I, O]) compile(ctx context.Context, options *graphCompileOpti
 			}
 
 			if err := n.checkAndAddMappedPath(paths); err != nil {
-				return nil, err
+				return nil, wf.stick(err)
 			}
 
 			pair := handlerPair{
